@@ -14,15 +14,32 @@ pub trait IntoConnectionInfoSpec: Sized {
 // redis::IntoConnectionInfo: a value that names its server as a connection structure converts to exactly that structure
 pub trait IntoConnectionInfo: IntoConnectionInfoSpec {
     fn into_connection_info(self) -> (r: Result<RConnectionInfo, RedisError>)
-        ensures self.target_spec() matches Target::Info(i) ==> r == Ok::<RConnectionInfo, RedisError>(i);
+        ensures self.target_spec() matches Target::Info(i) ==> r == Ok::<RConnectionInfo, RedisError>(i),
+            self.target_spec() matches Target::Url(s) ==> (r matches Ok(i) ==> parse_url(s) == Some(i)) && (r is Err ==> parse_url(s) is None);
+}
+// URL parsing of the redis crate: an uninterpreted function of the text (None = malformed)
+pub uninterp spec fn parse_url(s: Seq<char>) -> Option<RConnectionInfo>;
+// two ways of naming the same server: literally the same target, or a URL and the structure it parses to
+pub open spec fn same_server(a: Target, b: Target) -> bool {
+    a == b
+    || (a matches Target::Url(s) && b matches Target::Info(i) && parse_url(s) == Some(i))
+    || (b matches Target::Url(s) && a matches Target::Info(i) && parse_url(s) == Some(i))
 }
 impl IntoConnectionInfoSpec for &Str {
     open spec fn target_spec(self) -> Target { Target::Url(self@) }
 }
 impl IntoConnectionInfo for &Str {
-    // URL parsing (redis crate): arbitrary outcome
     #[verifier::external_body]
-    fn into_connection_info(self) -> (r: Result<RConnectionInfo, RedisError>) { unimplemented!() }
+    fn into_connection_info(self) -> (r: Result<RConnectionInfo, RedisError>)
+        ensures r matches Ok(i) ==> parse_url(self@) == Some(i), r is Err ==> parse_url(self@) is None
+    { unimplemented!() }
+}
+// the redis crate's own structure names itself
+impl IntoConnectionInfoSpec for RConnectionInfo {
+    open spec fn target_spec(self) -> Target { Target::Info(self) }
+}
+impl IntoConnectionInfo for RConnectionInfo {
+    fn into_connection_info(self) -> (r: Result<RConnectionInfo, RedisError>) { Ok(self) }
 }
 // redis::Client::open(params): fails exactly on malformed parameters (arbitrary here), never panics; the client connects to
 // what `params.into_connection_info()` names
@@ -30,7 +47,11 @@ pub struct Client { pub target: Ghost<Target> }
 impl Client {
     #[verifier::external_body]
     pub fn open<T: IntoConnectionInfo>(params: T) -> (r: Result<Client, RedisError>)
-        ensures r matches Ok(c) ==> c.target@ == params.target_spec()
+        ensures r matches Ok(c) ==> c.target@ == params.target_spec(),
+            // it is `params.into_connection_info()?` and nothing else: a URL must parse, a structure always succeeds
+            r is Ok ==> (params.target_spec() matches Target::Url(s) ==> parse_url(s) is Some),
+            (params.target_spec() matches Target::Url(s) && parse_url(s) is None) ==> r is Err,
+            params.target_spec() is Info ==> r is Ok
     { unimplemented!() }
 }
 #[verifier::external_body]
